@@ -11,6 +11,12 @@ P = {
                   'wrong-type / absent grants are unusable; over all sequences of approve / increase / decrease / revoke / native grant / '
                   'spend / time the amount spent never exceeds the amount granted - for the corrected order (Accept before the message); '
                   'for the code as it is the same holds outside the known-finding class K10, and K10 is a theorem (refutation witness). '
+                  'ICS-20 grants with SEVERAL allocations: a successful approve stores exactly the allocations it names (every channel '
+                  'exists, every channel and denomination holds the amount named for it, nothing leaks from one allocation into another); '
+                  'an accepted transfer lowers the limit of its own (channel, denomination) by exactly the amount and leaves every other '
+                  'one alone; over all sequences of approve (any number of allocations) / increaseAllowance / decreaseAllowance / revoke / '
+                  'native grant / transfer / time, for every channel and denomination, spent <= granted and a limited allowance holds '
+                  'granted - spent (corrected order; the code\'s order outside the K10 shape). '
                   'The model is compared with the real precompiles (EvmKeeper.ApplyTransaction through script contracts) on the full '
                   'identity x grant-state matrix and on random histories on every run; the property itself is evaluated on the real run',
     'level_note': 'trusted: Coq kernel + vm_compute, std++; the hand-written model of the precompiles, of x/authz Get/Save/DeleteGrant, of '
@@ -32,18 +38,33 @@ P = {
         'idcases': {'type': 'method * N * N * N * bool', 'check': 'id_mismatches', 'shard': 2000},
     },
     'search': {'rounds': 3, 'n': 1500},
-    'rule': 'two kinds of cases, all executed by the real EvmKeeper.ApplyTransaction on a fork of one real app (two bonded validators, '
-            'an open IBC transfer channel, three script contracts, signer O): (1) the identity matrix, enumerated in full on every '
+    'rule': 'three kinds of cases, all executed by the real EvmKeeper.ApplyTransaction on a fork of one real app (two bonded validators, '
+            'TWO open IBC transfer channels (channel-0, channel-1, each with its own escrow account, both observed), three script '
+            'contracts, signer O): (1) the identity matrix, enumerated in full on every '
             'run: method (delegate, undelegate, redelegate, cancelUnbondingDelegation, createValidator, approve, increaseAllowance, '
             'decreaseAllowance, revoke, setWithdrawAddress, withdrawDelegatorRewards, claimRewards, withdrawValidatorCommission, '
             'ICS-20 transfer / approve / revoke / increaseAllowance / decreaseAllowance) x caller (signer itself | contract | contract '
             'behind a forwarding contract) x named account (signer | caller | third EOA | third contract | the forwarding contract) x '
             'grant state (absent, expired, expiring in this very block, other message type, GenericAuthorization, validator outside the '
             'allow list / on the deny list, limit below / equal / above the amount, unlimited, never expiring, granted by a third '
-            'account, granted to another contract; ICS-20: receiver list, other denomination, unbounded sentinel, allocation exhausted); '
+            'account, granted to another contract; ICS-20: receiver list, other denomination, unbounded sentinel, allocation exhausted, '
+            'grants with two allocations where the allocation of the channel of the spend is smaller / larger / used up / missing / '
+            'next to an unbounded one, spends over channel-1 in both denominations); ICS-20 approve with ONE call carrying several '
+            'allocations (two channels in either order, one and two coins per allocation, small next to 10^18 next to unbounded, a '
+            'duplicate channel, a channel that does not exist) on every earlier grant state, increase / decrease on the second channel; '
             '(2) random histories of 4-9 transactions (1-3 calls each) mixing approve / increase / decrease / revoke by the signer '
             'directly and through contracts, spends by grantee contracts, distribution calls and time jumps up to past the one-year '
-            'approval expiration. Every matrix cell also yields an identity-verdict case (did the identity check reject?). createValidator stakes the named '
+            'approval expiration; (3) ICS-20 histories (40 % of n more, their own PRNG stream) of 4-9 transactions: approve with 1-3 '
+            'allocations over the two channels (1-2 denominations each, amounts 1..20 / 50..750 / 2000..11000 / 10^18 / unbounded, '
+            'invalid ones included), increaseAllowance / decreaseAllowance / revoke, and transfers by the grantee contracts per channel '
+            'and denomination whose amounts sit at and next to the limits of ANY allocation of the grantee\'s last approve, a few staking '
+            'calls in between. Property oracle over a history, besides the frame and the per-spend grant clause: the running allowance '
+            'per (grantee, message type) for staking and per (grantee, channel, denomination) for ICS-20 - approve (re)defines every '
+            'pair as exactly the amount the call names (nothing for pairs it does not name), increase / decrease move one pair, revoke '
+            'leaves nothing, a transfer that took effect is spent from the pair of its channel and denomination; spent > granted is a '
+            'violation (this is what catches a stored grant that differs from the approved one; the model compares the stored grant '
+            'itself, allocation by allocation, after every transaction). corpus/C04/ics_multi_allocation_approve.jsonl runs first. '
+            'Every matrix cell also yields an identity-verdict case (did the identity check reject?). createValidator stakes the named '
             'account\'s coins and no authorization covers MsgCreateValidator: any effect of it by a caller that is not the signer is '
             'reported as a spend without a grant (F10: accepted by /repo before c43fab9). '
             'non-trivial = at least one precompile call succeeded (identity cases: always); distinct = distinct inputs',
@@ -54,12 +75,15 @@ P = {
         'property oracle, class predicate) + harness/evmexec.go run/tracer + harness/asm.go script contract + vlib/core.py',
         'modelled, not verified: go-ethereum interpreter (CALL of the script contract only), x/authz keeper, StakeAuthorization.Accept, '
         'TransferAuthorization.Accept, SDK staking / distribution / bank messages and hooks (reward payout on every delegation change), '
-        'ibc-go transfer (escrow) over a hand-written open channel with a never-expiring light client, StateDB commit (only the '
+        'ibc-go transfer (escrow) over two hand-written open channels (one connection, a never-expiring light client), StateDB commit (only the '
         "caller's cached balance is modelled; all values are zero); gas is not modelled (gas price 0, ample limit)",
     ],
     'assumptions': [
         'module accounts (bonded / not-bonded pool, distribution, ICS-20 escrow) are not accounts in the sense of the property; the '
-        'escrow account is observed and only receives',
+        'escrow accounts of both channels are observed and only receive',
+        'ICS-20 allowance accounting: what a single approve / increaseAllowance / decreaseAllowance call of the signer names is what '
+        'the signer granted; the receiver allow list of an allocation is not part of the accounting (approve() does not store it); '
+        'transactions with several precompile calls restart the accounting (their effects cannot be told apart from outside)',
         'two validators, both bonded, no slashing (one token per share); reward amounts are oracle inputs (observed before the history)',
         'at most 6 undelegations / redelegations per history (below the SDK entry caps); the IBC light client never expires',
         'a grant belongs to its granter; receiving a grant counts as receiving',
